@@ -68,7 +68,7 @@ R = ['SCOPE',
      (r'const XalanDOMString&\s+theEncoding = getEncoding\(outputTarget\);', 'const int theEncoding = xv_effective_encoding(self, outputTarget);', 1),
      (r'const StylesheetExecutionContext_eEscapeURLs\s+eEscapeURLs =\s*executionContext\.getEscapeURLs\(\);', 'const int eEscapeURLs = xv_ctx_escape(executionContext);', 1),
      (r'const StylesheetExecutionContext_eOmitMETATag\s+eOmitMETATag =\s*executionContext\.getOmitMETATag\(\);', 'const int eOmitMETATag = xv_ctx_meta(executionContext);', 1),
-     (r'StylesheetExecutionContext_(eEscapeURLs\w+|eOmitMETATag\w+)', r'\1', 4),
+     (r'StylesheetExecutionContext_(eEscapeURLs\w+|eOmitMETATag\w+)', r'\1', (2, 4)),
      (r'executionContext\.createFormatterToHTML\(\s*\*pw,', 'xv_make_html(executionContext, pw,', 1),
      (r'executionContext\.createFormatterToText\(\*pw,', 'xv_make_text(executionContext, pw,', 1),
      (r'executionContext\.createFormatterToXML\(\s*\*pw,', 'xv_make_xml(executionContext, pw,', 1),
